@@ -252,7 +252,15 @@ fn const_boundary_program(rng: &mut Rng) -> String {
         6 => format!("void f() {{ const {} k = {}; {} a[2]; a[k] = ({})1; }}\n", ty, e, ty, ty),
         7 => format!("template<typename T> T g(T v) {{ return v; }}\nvoid f() {{ [unroll({})] for (int i = 0; i < 2; ++i) {{ g(i); }} }}\n", e),
         8 => format!("static const {}2 k = {}2({}, {});\nstatic const {} m = k.y;\nfloat a[(int)m + 1];\n", ty, ty, e, rng.pick(OPERANDS), ty),
-        2 => format!("struct S {{ {} v[{}]; }};\nstatic const uint n = sizeof(S);\n", ty, e),
+        2 => {
+            if rng.chance(1, 2) {
+                format!("struct S {{ {} v[{}]; }};\nstatic const uint n = sizeof(S);\n", ty, e)
+            } else {
+                // the same struct as the element of a buffer: with layout validation on, its size is computed for both packings
+                let buffer = *rng.pick(&["StructuredBuffer<S> b;", "RWStructuredBuffer<S> b;", "ConstantBuffer<S> b;", "ByteAddressBuffer b;\nvoid f() { b.Load<S>(0); }"]);
+                format!("struct S {{ {} v[{}]; {}3 w[2]; }};\n{}\n", ty, e, ty, buffer)
+            }
+        }
         _ => unreachable!(),
     }
 }
